@@ -16,13 +16,17 @@ import (
 	"strings"
 
 	"github.com/Oneledger/protocol/action"
+	acteth "github.com/Oneledger/protocol/action/eth"
+	ethchain "github.com/Oneledger/protocol/chains/ethereum"
 	"github.com/Oneledger/protocol/consensus"
 	"github.com/Oneledger/protocol/data/governance"
 	"github.com/Oneledger/protocol/data/keys"
 	"github.com/Oneledger/protocol/identity"
 	"github.com/Oneledger/protocol/serialize"
 	ethcmn "github.com/ethereum/go-ethereum/common"
+	ethtypes "github.com/ethereum/go-ethereum/core/types"
 	ethcrypto "github.com/ethereum/go-ethereum/crypto"
+	"github.com/ethereum/go-ethereum/rlp"
 )
 
 func init() { subcmds["c02"] = c02Main }
@@ -33,6 +37,7 @@ type c02Step struct {
 	Upd   []c02Rec `json:"upd"`
 	Side  []c02Rec `json:"side,omitempty"`
 	Allow string   `json:"allow"`
+	AllowC []c02Rec `json:"allowc,omitempty"` // wrapped currencies: (currency in C, amount in Amt)
 	Auth  []int    `json:"auth"`
 	H     int64    `json:"h"`
 	Type  string   `json:"type,omitempty"`
@@ -52,6 +57,7 @@ type c02Spec struct {
 	Name   string       `json:"name"`
 	World  [3]int       `json:"world"` // NewWorld(nvals, nusers, nextra)
 	Blocks []c02Block `json:"blocks"`
+	Genesis       string `json:"genesis,omitempty"`     // genesis variant of harness/twin.go genesisVariant ("" = default, "eth")
 	StakeMaturity int64 `json:"stake_maturity,omitempty"` // genesis stakingOptions.maturityTime (0 = the harness default 3)
 }
 
@@ -89,6 +95,8 @@ type c02Runner struct {
 	prefix   map[string]int
 	nonce    int
 	users    map[string]Key
+	ethLock   map[string]*big.Int // lock tracker -> value of the embedded Ethereum transaction (go-ethereum decode), not yet minted
+	ethBurnt  map[string]*big.Int // redeem tracker -> amount burnt when the redeem was accepted, not yet refunded
 	lockAuth  map[c02Key]bool     // bid escrow records locked by a transaction their owner (the bidder) signed
 	checked   map[string][2]int64 // tx bytes -> (CheckTx code, height of the block it preceded)
 	blockVals []*identity.Validator // validator records of the committed state at block start (the election queue's source)
@@ -120,8 +128,15 @@ func c02NewRunner(name string, world [3]int, customize func(*GenesisSpec)) *c02R
 }
 
 func c02NewRunnerM(name string, world [3]int, customize func(*GenesisSpec), stakeMaturity int64) *c02Runner {
+	return c02NewRunnerG(name, world, customize, stakeMaturity, "")
+}
+
+func c02NewRunnerG(name string, world [3]int, customize func(*GenesisSpec), stakeMaturity int64, genesis string) *c02Runner {
 	w := NewWorld(world[0], world[1], world[2])
 	g := w.Genesis()
+	if genesis != "" {
+		g = genesisVariant(w, genesis)
+	}
 	if customize != nil {
 		customize(g)
 	}
@@ -135,7 +150,7 @@ func c02NewRunnerM(name string, world [3]int, customize func(*GenesisSpec), stak
 		}
 	}
 	rep := NewReplica(g, ReplicaOpts{NodeVal: w.Vals[0].Val})
-	r := &c02Runner{w: w, rep: rep, in: c02NewIntern(), c: &c02Case{Spec: c02Spec{Name: name, World: world, StakeMaturity: stakeMaturity}}, protocol: map[string]bool{}, unknown: map[string]bool{}, bad: map[string]bool{}, prefix: map[string]int{}, users: map[string]Key{}}
+	r := &c02Runner{w: w, rep: rep, in: c02NewIntern(), c: &c02Case{Spec: c02Spec{Name: name, World: world, StakeMaturity: stakeMaturity, Genesis: genesis}}, protocol: map[string]bool{}, unknown: map[string]bool{}, bad: map[string]bool{}, prefix: map[string]int{}, users: map[string]Key{}}
 	rep.InitChain()
 	r.cur = r.observe()
 	r.c.Gen = r.in.recs(r.cur.Led)
@@ -279,6 +294,7 @@ func (r *c02Runner) blockPre1(in *BlockIn, descr []string, pre [][]byte) {
 					}
 				}
 			}
+			c02EthStep(r, before, after, stx, s)
 			s.TK, s.Amt = c02KindAmount(stx)
 			if pre != nil {
 				s.Model = pre(res.GasUsed, s.OK)
@@ -317,6 +333,7 @@ func (r *c02Runner) blockPre1(in *BlockIn, descr []string, pre [][]byte) {
 	r.rep.Commit()
 }
 
+var c02WitnessGenesis = map[string]string{"eth_redeem_refund": "eth"}
 var c02WitnessExodus = map[string]int{"reward_withdrawal_empty_pool": 1, "reward_withdrawal_empty_pool_checktx": 2}
 
 // c02Witness: short directed histories for the recorded findings
@@ -460,6 +477,66 @@ func c02Witness(name string, w *World) *History {
 			"olvm call with value: set slot 0", "olvm call: clear slot 0 (refund)", "olvm call that reverts")
 		s.block([][]byte{txOLVM(e1, &tog, 2, "0", 100000, nil), txOLVM(e1, &tog, 3, "0", 100000, []byte{9})}, "olvm call: set", "olvm call: clear in the same block (refund)")
 		s.empty(1)
+	case "eth_redeem_refund":
+		// genesis variant "eth" (chain driver, the validators as witnesses).  lock 5000 wei -> 3 success reports -> mint; a redeem of
+		// 200 that SUCCEEDS; a redeem of 300 that FAILS (3 failure reports) and must be refunded exactly 300; then crafted redeems whose
+		// embedded, well-formed Ethereum transaction carries the redeem(uint256) selector in a field BEFORE the call data (gas price,
+		// nonce, value) or twice in the call data, so that "amount of the call data" and "amount after the first selector in the raw
+		// bytes" differ: whatever is burnt when the redeem is accepted is what a failure may refund
+		s.empty(2)
+		wits := append([]ValSpec{}, w.Vals...)
+		sort.Slice(wits, func(i, j int) bool { return bytes.Compare(wits[i].Val.Addr, wits[j].Val.Addr) < 0 })
+		report := func(ethTx []byte, locker Key, success bool) {
+			var tn ethchain.TrackerName
+			tn.SetBytes(ethcmn.BytesToHash(ethTx).Bytes())
+			for i, v := range wits {
+				m := &acteth.ReportFinality{TrackerName: tn, Locker: locker.Addr, ValidatorAddress: v.Val.Addr, VoteIndex: int64(i), Success: success}
+				s.block([][]byte{mkTx(action.ETH_REPORT_FINALITY_MINT, m, GAS, s.memo(), v.Val)}, fmt.Sprintf("ethreport witness %d success=%v", i, success))
+			}
+			s.empty(1)
+		}
+		sel := ethcmn.FromHex(c15RedeemSelector())
+		word := func(v int64) []byte { b := make([]byte, 32); big.NewInt(v).FillBytes(b); return b }
+		etx := func(nonce uint64, gasPrice, value *big.Int, data []byte, tail int64) []byte {
+			t := ethtypes.NewTx(&ethtypes.LegacyTx{Nonce: nonce, GasPrice: gasPrice, Gas: 100000, To: &c15Contract, Value: value, Data: data,
+				V: big.NewInt(27), R: big.NewInt(12345), S: c15S(tail)})
+			bz, err := rlp.EncodeToBytes(t)
+			must(err)
+			return bz
+		}
+		redeemTx := func(u Key, raw []byte) []byte {
+			return mkTx(action.ETH_REDEEM, acteth.Redeem{Owner: u.Addr, To: ethcmn.BytesToAddress(u.Addr), ETHTxn: raw}, GAS, s.memo(), u)
+		}
+		lock := c15LockBytes(big.NewInt(5000), c15Contract, c15LockData, 1, c15S(101))
+		s.block([][]byte{mkTx(action.ETH_LOCK, acteth.Lock{Locker: u0.Addr, ETHTxn: lock}, GAS, s.memo(), u0)}, "ethlock 5000")
+		s.empty(1)
+		report(lock, u0, true)
+		good := etx(2, big.NewInt(1), big.NewInt(0), append(append([]byte{}, sel...), word(200)...), 102)
+		s.block([][]byte{redeemTx(u0, good)}, "ethredeem 200 (will succeed)")
+		report(good, u0, true)
+		fail := etx(3, big.NewInt(1), big.NewInt(0), append(append([]byte{}, sel...), word(300)...), 103)
+		s.block([][]byte{redeemTx(u0, fail)}, "ethredeem 300 (will fail and be refunded)")
+		report(fail, u0, false)
+		big32 := func(fill byte) *big.Int { // selector || 28 chosen bytes
+			b := append(append([]byte{}, sel...), bytes.Repeat([]byte{fill}, 28)...)
+			return new(big.Int).SetBytes(b)
+		}
+		crafted := []struct {
+			n   string
+			raw []byte
+		}{
+			{"selector in the gas price, 1 wei in the call data", etx(4, big32(0), big.NewInt(0), append(append([]byte{}, sel...), word(1)...), 104)},
+			{"selector in the gas price (small chosen amount 4000), 1 wei in the call data",
+				etx(5, new(big.Int).SetBytes(append(append([]byte{}, sel...), word(4000)[4:]...)), big.NewInt(0), append(append([]byte{}, sel...), word(1)...), 105)},
+			{"selector in the nonce, 1 wei in the call data", etx(0xdb006a7500000000, big.NewInt(1), big.NewInt(0), append(append([]byte{}, sel...), word(1)...), 106)},
+			{"selector in the value field, 1 wei in the call data", etx(6, big.NewInt(1), big32(0), append(append([]byte{}, sel...), word(1)...), 107)},
+			{"selector twice in the call data (2 then 900)", etx(7, big.NewInt(1), big.NewInt(0), append(append(append(append([]byte{}, sel...), word(2)...), sel...), word(900)...), 108)},
+		}
+		for _, c := range crafted {
+			s.block([][]byte{redeemTx(u0, c.raw)}, "ethredeem crafted: "+c.n)
+			report(c.raw, u0, false)
+		}
+		s.empty(2)
 	case "two_finalized_in_one_block":
 		full := scenarioHistory("govupdate", w)
 		s.h.Blocks, s.h.Descr = full.Blocks[:7], full.Descr[:7]
@@ -504,7 +581,11 @@ func (r *c02Runner) finish() *c02Case {
 // before the block; 2: its transactions went through CheckTx BEFORE the previous (unrelated) block.  exodus: the epilogue
 // "reward withdrawal, then every delegator undelegates everything" (see c02Runner.exodus)
 func c02RunHistory(name string, world [3]int, h *History, exodus int) (*c02Case, map[string]int) {
-	r := c02NewRunner(name, world, nil)
+	return c02RunHistoryG(name, world, h, exodus, "")
+}
+
+func c02RunHistoryG(name string, world [3]int, h *History, exodus int, genesis string) (*c02Case, map[string]int) {
+	r := c02NewRunnerG(name, world, nil, 0, genesis)
 	for i := range h.Blocks {
 		var d []string
 		if i < len(h.Descr) {
@@ -527,7 +608,7 @@ func c02RunHistory(name string, world [3]int, h *History, exodus int) (*c02Case,
 
 // c02Replay re-runs a recorded spec exactly (same CheckTx calls at the same places)
 func c02Replay(s c02Spec) (*c02Case, map[string]int) {
-	r := c02NewRunnerM(s.Name, s.World, nil, s.StakeMaturity)
+	r := c02NewRunnerG(s.Name, s.World, nil, s.StakeMaturity, s.Genesis)
 	for _, b := range s.Blocks {
 		in := BlockIn{Absent: map[int]bool{}}
 		for _, t := range b.Txs {
@@ -652,6 +733,14 @@ func (r *c02Runner) exodus(withCheck bool) {
 	}
 }
 
+func c02CoqAllowC(l []c02Rec) string {
+	p := make([]string, len(l))
+	for i, r := range l {
+		p[i] = fmt.Sprintf("(%d%%N,%s)", r.C, c02Z(r.Amt))
+	}
+	return "[" + strings.Join(p, ";") + "]"
+}
+
 // ---------- Coq output ----------
 
 func c02CoqCase(c *c02Case) string {
@@ -666,8 +755,8 @@ func c02CoqCase(c *c02Case) string {
 		if amt == "" {
 			amt = "0"
 		}
-		fmt.Fprintf(&b, "  {| s_kind := %d%%N; s_ok := %v; s_upd := %s; s_side := %s; s_allow := %s; s_auth := %s; s_tk := %d%%N; s_amt := %s; s_fin := %s; s_m := %s |}",
-			s.Kind, s.OK, c02CoqRecs(s.Upd), c02CoqRecs(s.Side), c02Z(s.Allow), c02CoqNs(s.Auth), s.TK, c02Z(amt), c02CoqNs(s.Fin), m)
+		fmt.Fprintf(&b, "  {| s_kind := %d%%N; s_ok := %v; s_upd := %s; s_side := %s; s_allow := %s; s_allowc := %s; s_auth := %s; s_tk := %d%%N; s_amt := %s; s_fin := %s; s_m := %s |}",
+			s.Kind, s.OK, c02CoqRecs(s.Upd), c02CoqRecs(s.Side), c02Z(s.Allow), c02CoqAllowC(s.AllowC), c02CoqNs(s.Auth), s.TK, c02Z(amt), c02CoqNs(s.Fin), m)
 		if i+1 < len(c.Steps) {
 			b.WriteString(";\n")
 		}
@@ -752,9 +841,9 @@ func c02Main(args []string) int {
 			}
 		}
 		world := [3]int{3, 5, 2}
-		for _, name := range []string{"proposal_fund_negative", "two_finalized_in_one_block", "withdraw_funds_negative", "withdraw_reward_negative", "olvm_foreign_from", "double_unstake", "self_stake_foreign_slot0", "refused_credit_then_spend", "reward_withdrawal_empty_pool", "reward_withdrawal_empty_pool_checktx", "bid_negative_amount", "olvm_sstore_refund"} {
+		for _, name := range []string{"proposal_fund_negative", "two_finalized_in_one_block", "withdraw_funds_negative", "withdraw_reward_negative", "olvm_foreign_from", "double_unstake", "self_stake_foreign_slot0", "refused_credit_then_spend", "reward_withdrawal_empty_pool", "reward_withdrawal_empty_pool_checktx", "bid_negative_amount", "olvm_sstore_refund", "eth_redeem_refund"} {
 			w := NewWorld(world[0], world[1], world[2])
-			c, p := c02RunHistory("witness_"+name, world, c02Witness(name, w), c02WitnessExodus[name])
+			c, p := c02RunHistoryG("witness_"+name, world, c02Witness(name, w), c02WitnessExodus[name], c02WitnessGenesis[name])
 			cases = append(cases, c)
 			mergePrefix(p)
 			rep.SourceHist["witness"]++
@@ -767,7 +856,11 @@ func c02Main(args []string) int {
 		}
 		for _, name := range scenarioNames {
 			w := NewWorld(world[0], world[1], world[2])
-			c, p := c02RunHistory("scenario_"+name, world, scenarioHistory(name, w), 0)
+			gen := scenarioGenesis(name)
+			if gen == "default" {
+				gen = ""
+			}
+			c, p := c02RunHistoryG("scenario_"+name, world, scenarioHistory(name, w), 0, gen)
 			cases = append(cases, c)
 			mergePrefix(p)
 			rep.SourceHist["scenario"]++
